@@ -99,6 +99,9 @@ func (fc *FuncCtx) evalCall(st *State, call *ast.CallExpr) []Term {
 		}
 		fc.fail(call, "call of function value %s", exprStr(call.Fun))
 	}
+	if rs, ok := fc.evalStatic(st, call, fn, recvExpr); ok {
+		return rs
+	}
 	sig := fn.Type().(*types.Signature)
 	if fc.isNoOp(fn) {
 		if recvExpr != nil {
@@ -241,7 +244,15 @@ func contractParamNames(fn *types.Func, c *Contract) (recv string, params []stri
 		defer func() {
 			for i := range results {
 				cur := sig.Results().At(i).Name()
-				if n := c.Names[k+len(params)+i]; cur != "" && cur != "_" && renamed(cur, n) {
+				n := c.Names[k+len(params)+i]
+				if cur == "" || cur == "_" {
+					// a result that lost its name keeps the name the contract knows it by
+					if n != "_" && !inSig[n] {
+						results[i] = n
+					}
+					continue
+				}
+				if renamed(cur, n) {
 					results[i] = n
 				}
 			}
